@@ -92,6 +92,33 @@ AxiNSEnergy(F, R, gamma, mu, kappa, Temp) ==
   IN  NSub(NSub(AxiEnergy(F, R, gamma), AxiDiv(R, wr, wz)),
            AxiDiv(R, JMul(kappa, JD(Temp, 1)), JMul(kappa, JD(Temp, 2))))
 
+\* ---------------------------------------------------------------- Spalart-Allmaras closure (C05)
+\* f_v1 = chi^3/(chi^3 + c_v1^3) as a jet (so that the eddy viscosity can be differentiated in space)
+SAfv1(chi, cv1) == LET c3 == JMul(chi, JSq(chi)) IN JDiv(c3, JAdd(c3, JConst(NMul(cv1, NSq(cv1)))))
+\* pointwise closure functions on numbers
+SAfv2N(chi, fv1) == NSub(N1, NDiv(chi, NAdd(N1, NMul(chi, fv1))))
+\* modified vorticity S~ = Omega + Sbar with the Johnson-Allmaras limiter (c_v2, c_v3)
+SAStilde(Omega, Sbar, cv2, cv3) ==
+  IF NLe(NNeg(NMul(cv2, Omega)), Sbar) THEN NAdd(Omega, Sbar)
+  ELSE NAdd(Omega, NDiv(NMul(Omega, NAdd(NMul(NSq(cv2), Omega), NMul(cv3, Sbar))),
+                        NSub(NMul(NSub(cv3, NMul(N2, cv2)), Omega), Sbar)))
+SAfw(r, cw2, cw3) ==
+  LET g  == NAdd(r, NMul(cw2, NSub(NPow(r, NFromInt(6)), r)))
+      c6 == NPow(cw3, NFromInt(6))
+  IN  NMul(g, NPow(NDiv(NAdd(N1, c6), NAdd(NPow(g, NFromInt(6)), c6)), NFromRat(1, 6)))
+SAcw1(cb1, cb2, kappa, sigma) == NAdd(NDiv(cb1, NSq(kappa)), NDiv(NAdd(N1, cb2), sigma))
+
+\* Favre-averaged SA transport of the working variable nu (conservative form), F the mean fields:
+\*   (rho nu)_t + div(rho u nu) - production + destruction
+\*        - (1/sigma) [ div((mu + rho nu) grad nu) + c_b2 rho |grad nu|^2 ]
+FansNuResidual(F, nu, mu, sigma, cb2, production, destruction) ==
+  LET rn == JMul(F.rho, nu)
+      Conv(i) == JG(JMul(rn, F.u[i]), i)
+      Diff(i) == JG(JMul(JAdd(mu, rn), JD(nu, i)), i)
+      G2(i)   == NSq(JG(nu, i))
+  IN  NSub(NAdd(NSub(NAdd(JG(rn, 4), Sum3(Conv)), production), destruction),
+           NDiv(NAdd(Sum3(Diff), NMul(NMul(cb2, JV(F.rho)), Sum3(G2))), sigma))
+
 \* The system the two viscous axisymmetric solutions of the pinned tree were actually derived from
 \* (known finding C03): shear stress without dw/dr, no hoop-stress term.  Used only to pin the known
 \* deviation down exactly, so that any *other* change to those evaluators is still detected.
